@@ -781,6 +781,17 @@ func (r *Replica) Restore(ctx context.Context, opt RestoreOptions) (err error) {
 		return err
 	}
 
+	// In follow mode, publish the TXID sidecar before the database appears
+	// under its final name. Crash recovery treats "database exists" as
+	// "resume from the sidecar", so the sidecar must never be missing once
+	// the rename below has happened. A sidecar without a database is
+	// harmless: the next run starts a fresh restore and overwrites it.
+	if opt.Follow {
+		if err := WriteTXIDFile(opt.OutputPath, infos[len(infos)-1].MaxTXID); err != nil {
+			return fmt.Errorf("write initial txid file: %w", err)
+		}
+	}
+
 	// Copy file to final location.
 	r.Logger().Debug("renaming database from temporary location")
 	if err := os.Rename(tmpOutputPath, opt.OutputPath); err != nil {
@@ -811,11 +822,7 @@ func (r *Replica) Restore(ctx context.Context, opt RestoreOptions) (err error) {
 		}
 		rdrs = nil
 
-		maxTXID := infos[len(infos)-1].MaxTXID
-		if err := WriteTXIDFile(opt.OutputPath, maxTXID); err != nil {
-			return fmt.Errorf("write initial txid file: %w", err)
-		}
-		return r.follow(ctx, opt.OutputPath, maxTXID, opt.FollowInterval)
+		return r.follow(ctx, opt.OutputPath, infos[len(infos)-1].MaxTXID, opt.FollowInterval)
 	}
 
 	return nil
